@@ -373,6 +373,7 @@ Fixpoint value {V} (fuel : nat) (g : list (node V)) (k i : nat) : option V :=
   end.
 
 (* ---------- the genomic pipelines as graphs over a small value universe ---------- *)
+Definition swin := (iv * Z)%type.                 (* a stranded window: ((start, stop), strand code) *)
 Inductive gval :=
 | GIv (l : list iv)            (* intervals of one chromosome *)
 | GZ (z : Z)                   (* chromosome size / scalar *)
@@ -380,6 +381,7 @@ Inductive gval :=
 | GR (r : list (list Z))       (* ragged values under intervals *)
 | GSN (sn : list (Z * Z))      (* sum_and_n over axis 0: per column (sum, count) *)
 | GT (t : list gval)           (* tuple *)
+| GIvS (l : list swin)         (* stranded windows of one chromosome: ((start, stop), strand) with 0 '+', 1 '-', 2 '.' *)
 | GErr.
 
 Definition op_pileup (a : list gval) : gval :=
@@ -558,4 +560,158 @@ Definition spec_pipeline (p : pipeline) (order sizes : list Z) (da db : list (Z 
   | PValuesMean0 => if len (concat vals) =? 0 then GZ 0 else GSN (spec_cols vals)
   | PValuesSum => GL (map sumZ vals)                      (* in memory: one sum per window *)
   | PValuesSum0 => GL (map fst (spec_cols vals))          (* in memory: the column sums *)
+  end.
+
+(* ====================================================================================== *)
+(* Values under STRANDED windows (GenomicArrayNode.extract_intervals, stranded_func) *)
+(* ====================================================================================== *)
+(* both the streamed stranded_func and the in-memory extract_intervals keep a row as it is only for strand '+' and
+   reverse it for every other strand symbol ('-' and '.'): np.where((strand == '+')[:, None], rle, rle[:, ::-1]) *)
+Definition orient (strand : Z) (row : list Z) : list Z := if strand =? 0 then row else rev row.
+Definition values_under_stranded (track : list Z) (ws : list swin) : list (list Z) :=
+  map (fun w => orient (snd w) (slice (fst (fst w)) (snd (fst w)) track)) ws.
+
+Definition op_sstart (a : list gval) : gval := match a with [GIvS l] => GL (map (fun w => fst (fst w)) l) | _ => GErr end.
+Definition op_sstop (a : list gval) : gval := match a with [GIvS l] => GL (map (fun w => snd (fst w)) l) | _ => GErr end.
+Definition op_sstrand (a : list gval) : gval := match a with [GIvS l] => GL (map snd l) | _ => GErr end.
+Definition op_schrom (a : list gval) : gval := match a with [GIvS l] => GL (map (fun _ => 0) l) | _ => GErr end.
+Definition op_extract_stranded (a : list gval) : gval :=
+  match a with
+  | [GL t; GL s; GL e; GL st] =>
+      GR (map (fun '(x, y, z) => orient z (slice x y t)) (combine (combine s e) st))
+  | _ => GErr
+  end.
+(* GenomicIntervalsStreamed(..., is_stranded=True) creates: stream, start, stop, strand, chromosome, chrom sizes *)
+Definition stranded_nodes (base : nat) (per_chrom : list (list swin)) (sizes : list Z) : list (node gval) :=
+  [ NStream (map GIvS per_chrom);
+    NComp op_sstart [base]; NComp op_sstop [base]; NComp op_sstrand [base]; NComp op_schrom [base];
+    NStream (map GZ sizes) ].
+
+Inductive spipeline := SValues | SValuesMean0.
+Definition spipeline_graph (p : spipeline) (sizes : list Z) (a : list (list iv)) (w : list (list swin))
+  : list (node gval) * nat :=
+  let A := intervals_nodes 0 a sizes in                                          (* 0..4 *)
+  let base := A ++ [NComp op_pileup [0%nat; 4%nat]; names_node (length sizes)]   (* 5, 6 *)
+                ++ stranded_nodes 7 w sizes                                      (* 7..12 *)
+                ++ [NComp op_extract_stranded [5%nat; 8%nat; 9%nat; 10%nat]] in  (* 13 *)
+  match p with
+  | SValues => (base, 13%nat)
+  | SValuesMean0 => (base ++ [NComp op_sum_n0 [13%nat]], 14%nat)
+  end.
+Definition per_chromosome_s (order : list Z) (cs : list (list (Z * swin))) : list (list swin) :=
+  walk order (stream_groupby false cs).
+Definition run_stranded_with (mean_red : gval -> gval -> gval) (p : spipeline) (order sizes : list Z)
+           (csa : list (list (Z * iv))) (csw : list (list (Z * swin))) : option gval :=
+  let '(g, root) := spipeline_graph p sizes (per_chromosome order csa) (per_chromosome_s order csw) in
+  match run_graph g root with
+  | ROk vs => match p with SValues => Some (gconcat vs) | SValuesMean0 => reduce1 mean_red vs end
+  | _ => None
+  end.
+Definition run_stranded := run_stranded_with red_mean_current.
+Definition swins_of (name : Z) (d : list (Z * swin)) : list swin := map snd (filter (fun e => fst e =? name) d).
+Definition spec_stranded (p : spipeline) (order sizes : list Z) (da : list (Z * iv)) (dw : list (Z * swin)) : gval :=
+  let vals := concat (map (fun '(name, size) => values_under_stranded (coverage size (ivs_of name da)) (swins_of name dw))
+                          (combine order sizes)) in
+  match p with
+  | SValues => GR vals
+  | SValuesMean0 => if len (concat vals) =? 0 then GZ 0 else GSN (spec_cols vals)
+  end.
+
+(* ====================================================================================== *)
+(* Arithmetic on a streamed track: Node.__array_ufunc__ builds ComputationNode(ufunc, args) *)
+(* with the operands IN THE ORDER THEY WERE WRITTEN; plain values stay in their position.  *)
+(* ====================================================================================== *)
+Inductive bop := BAdd | BSub | BMul | BPow | BFloorDiv | BMod | BGt | BLt | BGe | BLe | BEq | BNe.
+Definition b2z (b : bool) : Z := if b then 1 else 0.
+Definition bop_eval (o : bop) (x y : Z) : Z :=
+  match o with
+  | BAdd => x + y | BSub => x - y | BMul => x * y | BPow => x ^ y
+  | BFloorDiv => x / y | BMod => x mod y
+  | BGt => b2z (x >? y) | BLt => b2z (x <? y) | BGe => b2z (x >=? y) | BLe => b2z (x <=? y)
+  | BEq => b2z (x =? y) | BNe => b2z (negb (x =? y))
+  end.
+(* the expression as the user writes it: operand order is part of the term *)
+Inductive texpr := TTrack | TConst (c : Z) | TBin (o : bop) (a b : texpr).
+Fixpoint teval (e : texpr) (x : Z) : Z :=
+  match e with TTrack => x | TConst c => c | TBin o a b => bop_eval o (teval a x) (teval b x) end.
+
+(* a ufunc on per-chromosome buffers: arrays element-wise, a plain value broadcast *)
+Fixpoint map2 (f : Z -> Z -> Z) (a b : list Z) : list Z :=
+  match a, b with x :: a', y :: b' => f x y :: map2 f a' b' | _, _ => [] end.
+Definition lift2 (o : bop) (a b : gval) : gval :=
+  match a, b with
+  | GL x, GL y => if (length x =? length y)%nat then GL (map2 (bop_eval o) x y) else GErr
+  | GZ c, GL y => GL (map (bop_eval o c) y)
+  | GL x, GZ c => GL (map (fun v => bop_eval o v c) x)
+  | _, _ => GErr
+  end.
+Inductive operand := ONode (k : nat) | OConst (c : Z).
+(* ComputationNode._get_buffer: args = [a._get_buffer(i) if isinstance(a, Node) else a for a in self._args] *)
+Fixpoint fill_args (template : list operand) (vs : list gval) : list gval :=
+  match template with
+  | [] => []
+  | OConst c :: t => GZ c :: fill_args t vs
+  | ONode _ :: t => match vs with v :: vs' => v :: fill_args t vs' | [] => [GErr] end
+  end.
+Definition node_args (template : list operand) : list nat :=
+  flat_map (fun o => match o with ONode k => [k] | OConst _ => [] end) template.
+Definition apply_ufunc (o : bop) (args : list gval) : gval :=
+  match args with [x; y] => lift2 o x y | _ => GErr end.
+Definition ufunc_node (o : bop) (template : list operand) : node gval :=
+  NComp (fun vs => apply_ufunc o (fill_args template vs)) (node_args template).
+
+(* nodes created while Python evaluates the expression (left operand first); [next] is the number of nodes that exist *)
+Fixpoint compile (e : texpr) (track next : nat) : list (node gval) * operand :=
+  match e with
+  | TTrack => ([], ONode track)
+  | TConst c => ([], OConst c)
+  | TBin o a b =>
+      let '(na, oa) := compile a track next in
+      let '(nb, ob) := compile b track (next + length na) in
+      match oa, ob with
+      | OConst x, OConst y => (na ++ nb, OConst (bop_eval o x y))          (* plain Python arithmetic, no node *)
+      | _, _ => (na ++ nb ++ [ufunc_node o [oa; ob]], ONode (next + length na + length nb))
+      end
+  end.
+
+Inductive query :=
+| QTrack                       (* compute(track.get_data()) *)
+| QSum                         (* compute(track.sum()) *)
+| QHist (k lo hi : Z)          (* compute(np.histogram(track, bins=k, range=(lo,hi))) *)
+| QValues.                     (* compute(track[windows]) *)
+Definition expr_graph (e : texpr) (q : query) (sizes : list Z) (a b : list (list iv)) : option (list (node gval) * nat) :=
+  let base := intervals_nodes 0 a sizes ++ [NComp op_pileup [0%nat; 4%nat]; names_node (length sizes)]
+              ++ intervals_nodes 7 b sizes in                                        (* 0..11 *)
+  let '(ne, oe) := compile e 5 12 in
+  match oe with
+  | OConst _ => None                                                                (* not a track *)
+  | ONode t =>
+      let r := (12 + length ne)%nat in
+      Some (base ++ ne ++ [match q with
+                           | QTrack => NComp op_data [6%nat; t]
+                           | QSum => NComp op_sum [t]
+                           | QHist k lo hi => NComp (op_hist k lo hi) [t]
+                           | QValues => NComp op_extract [t; 8%nat; 9%nat]
+                           end], r)
+  end.
+Definition finish_query (q : query) (vs : list gval) : option gval :=
+  match q with
+  | QTrack => Some (GT vs)
+  | QSum => reduce1 red_add vs
+  | QHist _ _ _ => reduce1 red_hist vs
+  | QValues => Some (gconcat vs)
+  end.
+Definition run_expr (e : texpr) (q : query) (order sizes : list Z) (csa csb : list (list (Z * iv))) : option gval :=
+  match expr_graph e q sizes (per_chromosome order csa) (per_chromosome order csb) with
+  | None => None
+  | Some (g, root) => match run_graph g root with ROk vs => finish_query q vs | _ => None end
+  end.
+(* in memory: the same expression on the whole per-chromosome tracks, position by position *)
+Definition spec_expr (e : texpr) (q : query) (order sizes : list Z) (da db : list (Z * iv)) : gval :=
+  let tracks := map (fun '(name, size) => map (teval e) (coverage size (ivs_of name da))) (combine order sizes) in
+  match q with
+  | QTrack => GT (map GL tracks)
+  | QSum => GZ (sumZ (concat tracks))
+  | QHist k lo hi => GL (spec_hist k lo hi (concat tracks))
+  | QValues => GR (concat (map (fun '(name, t) => values_under t (ivs_of name db)) (combine order tracks)))
   end.
